@@ -226,3 +226,19 @@ func TestTrailingCommaIsInvalid(t *testing.T) {
 		t.Error(err)
 	}
 }
+
+func TestIdentifierFoldingIsASCIIOnly(t *testing.T) {
+	db := NewDB()
+	if err := db.ExecScript("CREATE TABLE T (Id serial PRIMARY KEY, Élan integer NOT NULL);"); err != nil {
+		t.Fatal(err)
+	}
+	if _, _, err := db.Exec("INSERT INTO t (ÉLAN) VALUES ($1)", []any{int64(1)}); err != nil {
+		t.Error("ÉLAN folds to Élan (ASCII letters fold, É stays):", err)
+	}
+	if _, _, err := db.Exec("INSERT INTO t (élan) VALUES ($1)", []any{int64(1)}); err == nil {
+		t.Error("élan is not Élan")
+	}
+	if _, _, err := db.Exec("INSERT INTO T (Élan) VALUES ($1)", []any{int64(1)}); err != nil {
+		t.Error(err)
+	}
+}
